@@ -155,7 +155,8 @@ def run_shard(sh: Shard) -> None:
             sh.violation(None, f"get_tag({sub}) = {g!r}, deepest tag of the prefix chain is {exp!r}", {"kind": "get_tag", "tags": sub})
         if i < 2 and sh.shard == 1:
             sh.sample({"kind": "get_tag", "tags": sub, "got": g})
-        step = "/" + "/".join(rng.choice(["a", "b.c", "1.2", "x-scatter", "0", "0.1", "s p", "é"]) for _ in range(rng.randint(1, 3)))
+        # step names as the translator creates them: "/" for a bare tool (job "/0"), "/a/b..." otherwise
+        step = "/" + "/".join(rng.choice(["a", "b.c", "1.2", "x-scatter", "0", "0.1", "s p", "é"]) for _ in range(rng.randint(0, 3)))
         tag = rng.choice(chain)
         jn = posixpath.join(step, tag)
         sh.count("contract_job_name")
